@@ -593,18 +593,28 @@ func (a *jshape) intersects(b *jshape) bool {
 func ruleHashShape(c *Ctx, r *Rep) {
 	// the hashed value: argument of json.Marshal in the module function named by its role:
 	// a method of the configuration content type returning []byte that calls sha1 / json.Marshal
+	// the hashed value: the receiver of the configuration's hashing method (a method of the content type returning
+	// []byte whose call-graph closure reaches json.Marshal)
 	var root types.Type
 	var hfn *ssa.Function
-	for fn, cis := range c.funcsCalling("encoding/json.Marshal") {
-		if recv := fn.Signature.Recv(); recv != nil && strings.HasSuffix(typeShort(c, recv.Type()), "CertificateContent") {
-			for _, ci := range cis {
-				root = unwrapIface(ci.Common().Args[0]).Type()
-				hfn = fn
+	for _, fn := range c.Funcs {
+		recv := fn.Signature.Recv()
+		if recv == nil || !strings.HasSuffix(typeShort(c, recv.Type()), "CertificateContent") || fn.Signature.Results().Len() != 1 {
+			continue
+		}
+		if sl, ok := fn.Signature.Results().At(0).Type().Underlying().(*types.Slice); !ok || !types.Identical(sl.Elem(), types.Typ[types.Byte]) {
+			continue
+		}
+		for f := range c.Graph().Reach(fn) {
+			for _, ci := range callsIn(f) {
+				if calleeFullName(ci) == "encoding/json.Marshal" {
+					root, hfn = recv.Type(), fn
+				}
 			}
 		}
 	}
 	if root == nil {
-		r.Undecided("anchor:hash-function", "", "no method of CertificateContent calls json.Marshal")
+		r.Undecided("anchor:hash-function", "", "no []byte-returning method of CertificateContent reaches json.Marshal")
 		return
 	}
 	iface := c.extConfigIface()
